@@ -211,18 +211,34 @@ def extension_rules(rep, prog):
         return
     (lo, outer), (li_, inner) = loops
     P = ("param", "P")
-    init_ok = outer["init"].get("G") == ("call", U + "only_directed", (P,), (("P", P),)) and outer["init"].get("indexes") == ("ext", "list", (("ext", "range", (("ext", "len", (P,), ()),), ()),), ()) \
-        and outer["init"].get("P") == P
+    want_G = ("call", U + "only_directed", (P,), (("P", P),))
+    want_I = ("ext", "list", (("ext", "range", (("ext", "len", (P,), ()),), ()),), ())
+    by_init = {}
+    for k, v in outer["init"].items():
+        by_init.setdefault(v, []).append(k)
+    nG, nI, nP = by_init.get(want_G, []), by_init.get(want_I, []), by_init.get(P, [])
+    init_ok = len(nG) == 1 and len(nI) == 1 and len(nP) == 1
+    if len(nG) == 1 and len(nP) == 1 and not nI:
+        rep.bad("INDEX.pairing", fwhere(f2, outer["node"]), "the list of real node names is never updated while the local matrix shrinks: local indices drift away from node names")
+        return
     rep.check("INDEX.init", init_ok, fwhere(f2), "result starts as only_directed(P); real names = list(range(len(P)))", "initial state of the extension search changed")
-    muP, muI, mui = ("mu", li_, "P"), ("mu", li_, "indexes"), ("mu", li_, "i")
-    nP, nI = inner["next"].get("P"), inner["next"].get("indexes")
+    if not init_ok:
+        return
+    nG, nI, nP = nG[0], nI[0], nP[0]
+    # the scan index: the loop-carried integer that starts at 0
+    ni = [k for k, v in inner["init"].items() if is_const(v, 0) and not isinstance(v[1], bool)]
+    if len(ni) != 1:
+        rep.unk("INDEX.pairing", fwhere(f2), "scan index of the sink search not identified")
+        return
+    muP, muI, mui = ("mu", li_, nP), ("mu", li_, nI), ("mu", li_, ni[0])
+    nPx, nIx = inner["next"].get(nP), inner["next"].get(nI)
     allbut = ("ext", "list", (("binop", "-", ("ext", "set", (("ext", "range", (("ext", "len", (muP,), ()),), ()),), ()), ("set", (mui,))),), ())
     FULL = ("slice", ("const", None), ("const", None), ("const", None))
     shr = ("sub", ("sub", muP, ("tuple", (allbut, FULL))), ("tuple", (FULL, allbut)))
-    ok = nP is not None and nI is not None and nP[0] == "phi" and nI[0] == "phi" and nP[1] == nI[1] and nP[2] == shr and nP[3] == muP and \
-        nI[2] == ("mut", muI, "remove", (("sub", muI, mui),)) and nI[3] == muI
+    ok = nPx is not None and nIx is not None and nPx[0] == "phi" and nIx[0] == "phi" and nPx[1] == nIx[1] and nPx[2] == shr and nPx[3] == muP and \
+        nIx[2] == ("mut", muI, "remove", (("sub", muI, mui),)) and nIx[3] == muI
     rep.check("INDEX.pairing", ok, fwhere(f2, inner["node"]), "the local matrix drops row/column i exactly when the real-name list drops indexes[i], under the same condition",
-              "the local matrix and the real-name list do not shrink together: P' = %s ; indexes' = %s" % (fmt(nP)[:100] if nP else None, fmt(nI)[:100] if nI else None))
+              "the local matrix and the real-name list do not shrink together: P' = %s ; indexes' = %s" % (fmt(nPx)[:100] if nPx else None, fmt(nIx)[:100] if nIx else None))
     st = [s for s in S2.select("store", qname=q2)]
     okw = False
     if len(st) == 1 and st[0].idx[0] == "tuple":
